@@ -217,6 +217,17 @@ func c08Deviations() []reqDev {
 	add("ext-lookalike-keys", "ext", "", func(r *reqSpec) {
 		r.ext = []envenc.ExtAttr{{Key: "io.cncf.notary.signingSchemeX", Critical: true, Value: "x"}, {Key: "io.cncf.notary.signingAgent", Critical: false, Value: "not-the-agent"}}
 	})
+	// keys that differ from each other only by letter case, or only under Unicode case folding (long s, Kelvin sign), are different
+	// keys: each keeps its own value and its own criticality
+	add("ext-keys-differing-by-letter-case", "ext", "", func(r *reqSpec) {
+		r.ext = []envenc.ExtAttr{{Key: "Build-Id", Critical: true, Value: "upper"}, {Key: "build-id", Critical: false, Value: "lower"}, {Key: "BUILD-ID", Critical: false, Value: "shout"}}
+	})
+	add("ext-keys-differing-by-letter-case(critical one last)", "ext", "", func(r *reqSpec) {
+		r.ext = []envenc.ExtAttr{{Key: "build-id", Critical: false, Value: "lower"}, {Key: "Build-Id", Critical: true, Value: "upper"}}
+	})
+	add("ext-keys-differing-under-unicode-case-folding", "ext", "", func(r *reqSpec) {
+		r.ext = []envenc.ExtAttr{{Key: "keys", Critical: false, Value: "plain"}, {Key: "Key\u017f", Critical: true, Value: "long s"}, {Key: "\u212aeys", Critical: false, Value: "kelvin"}}
+	})
 	// scheme, agent, signer, chain length
 	add("scheme-signing-authority", "scheme", "", func(r *reqSpec) { r.scheme = envenc.SchemeSA })
 	add("agent-text", "agent", "", func(r *reqSpec) { r.agent = "notation/1.2.3 (verif) ünï" })
